@@ -2,7 +2,10 @@
 
     Statements only; proofs in [Farm/Rewards.v] (on top of the invariant of [Farm/Proofs.v]).
     [reachable s] as in C05: any history from any genesis with an empty farm account. *)
-From Irismod Require Import Farm.Model Farm.Check Farm.Proofs Farm.Rewards Farm.Refund Farm.Budget Farm.Sound Farm.History Farm.Sound6 Farm.ProRata Farm.SoundTrace Farm.FairFold Farm.FairModel.
+From Irismod Require Import Farm.Model Farm.Check Farm.Proofs Farm.Rewards Farm.Refund Farm.Budget Farm.Sound Farm.History Farm.Sound6 Farm.ProRata Farm.SoundTrace Farm.FairFold Farm.FairModel Farm.FairRef.
+From Coq Require Import QArith.
+Close Scope Q_scope.
+Open Scope Z_scope.
 
 (** RELEASE.  Every successful updatePool (each of stake, unstake, harvest, adjust, destroy and the
     end blocker goes through it), at any height, on any pool and ledger: the reward released for a
@@ -241,6 +244,77 @@ Theorem fair_share_fold_holds_on_the_model :
     inv s -> (forall k, key_ok s m k) -> nd m -> o_pools last = pools s -> fair_ok (fair_close last m) = true.
 Proof. exact fair_ok_model. Qed.
 Print Assumptions fair_share_fold_holds_on_the_model.
+
+(** BLOCK-BY-BLOCK REFERENCE (clause 19).  [ref_hist]: at the start of every block each running, staked pool hands the
+    block's reward to the recorded farmers in proportion to the stakes they hold at that moment (the harness'
+    independent [accrueBlock]); [model_shares]: the share map the checker folds ([fair_step]), as a function of the model
+    history; [pending]: what a recorded farmer has earned since the pool's last settlement.  Because the model settles a
+    pool before every change of its stakes, over one step "credited at settlement moments + pending" grows by exactly the
+    reference of that step, for every key and every share value the fold may hold. *)
+Theorem reference_step :
+  forall (s : state) (st : step) (oc0 : outcome) (rw0 : list (denom * Z)) (k : key) (sh : share),
+    inv s -> valid_step st ->
+    (sh_fair (step_spec (obs_of s oc0 rw0) st (obs_after s st) k sh) + pending (step_state s st) k
+     == sh_fair sh + pending s k + ref_step s st k)%Q.
+Proof. exact ref_step_lemma. Qed.
+Print Assumptions reference_step.
+
+(** the checker's map on a model trace is [model_shares] of the history *)
+Theorem checker_share_map_is_model_shares :
+  forall (steps : list step) (s : state) (a : obs) (i : Z) (x : acc),
+    a_sh (fst (check_from s a (model_trace s steps) i x)) = model_shares s a steps (a_sh x).
+Proof. exact check_from_shares. Qed.
+Print Assumptions checker_share_map_is_model_shares.
+
+(** over every history from genesis the block-by-block reference IS the share credited at the settlement moments
+    plus what is still pending; the latter is 0 for a farmer who has withdrawn, for a pool settled at the current
+    height, and for a pool that has stopped ([pending_absent], [pending_settled], [pending_stopped]) *)
+Theorem block_by_block_reference_is_settlement_share :
+  forall (b : ledger) (h : Z) (steps : list step) (k : key),
+    genesis_ok b h -> Forall valid_step steps ->
+    (ref_hist (init b h) steps k
+     == sh_fair (sh_get (model_shares (init b h) (obs_of (init b h) Ok []) steps []) k) + pending (run (init b h) steps) k)%Q.
+Proof. exact reference_is_settlement_share_lemma. Qed.
+Print Assumptions block_by_block_reference_is_settlement_share.
+
+Theorem nothing_pending_after_withdrawal :
+  forall (s : state) (w pid d : Z) (p : pool),
+    get pid (pools s) = Some p -> get w (p_farmers p) = None -> pending s (w, pid, d) = 0%Q.
+Proof. exact pending_absent. Qed.
+Print Assumptions nothing_pending_after_withdrawal.
+
+(** MODEL PASSES CHECK for C06 with the reference rows: if every row of [c_fair] carries the block-by-block reference of
+    its key and nothing is pending for it at the end (the harness ends with a full withdrawal), [check_case_C06] answers
+    exactly (-1, -1, 0): the rows agree with the folded shares ([fair_ref_ok], no divergence) and clause 19
+    ([fair_ref_share_ok]: payouts within the bound of the REFERENCE share) holds as well as clauses 10-18. *)
+Theorem model_passes_check_C06_with_reference :
+  forall (h0 : Z) (bl : list (acct * list Z)) (steps : list step) (ref : list (Z * Z * Z * Z * Z)),
+    genesis_ok (ledger_of bl) h0 -> bals_of (ledger_of bl) = bl ->
+    Forall valid_step steps -> Forall actor_step steps ->
+    Forall (ref_row_ok (init (ledger_of bl) h0) steps) ref ->
+    check_case_C06 (model_case h0 bl steps ref) = (-1, -1, 0).
+Proof. exact model_passes_check_C06_ref_lemma. Qed.
+Print Assumptions model_passes_check_C06_with_reference.
+
+(** non-vacuity: farmer 1 stakes 2, farmer 2 joins with 1 for two blocks, harvests and leaves: the references are 10/3
+    and 2/3, the rows satisfy [ref_row_ok], the case passes; a wrong reference row is reported (divergence and clause 19) *)
+Example c06_reference_nonvacuous :
+  let bl := [(0, [1000000; 1000000; 1000000; 1000000]); (1, [1000; 1000; 1000; 1000]); (2, [5; 0; 7; 1000]); (3, [0; 0; 0; 0]);
+             (FARM, [0; 0; 0; 0]); (COLL, [0; 0; 0; 0]); (FEEC, [0; 0; 0; 9]); (BURN, [0; 0; 0; 0])] in
+  let hist := [Msg (CreatePool 0 0 2 true [(3, 1000, 1)]); NextBlock; Msg (Stake 1 1 0 2); NextBlock; Msg (Stake 2 1 0 1);
+               NextBlock; Msg (Harvest 2 1); NextBlock; Msg (Unstake 2 1 0 1); NextBlock; Msg (Unstake 1 1 0 2)] in
+  let ref := [(1, 1, 3, 10, 3); (2, 1, 3, 2, 3)] in
+  genesis_ok (ledger_of bl) 2 /\ bals_of (ledger_of bl) = bl /\ Forall valid_step hist /\ Forall actor_step hist
+  /\ Forall (ref_row_ok (init (ledger_of bl) 2) hist) ref
+  /\ Qred (ref_hist (init (ledger_of bl) 2) hist (2, 1, 3)) = Qmake 2 3
+  /\ check_case_C06 (model_case 2 bl hist ref) = (-1, -1, 0)
+  /\ check_case_C06 (model_case 2 bl hist [(2, 1, 3, 5, 1)]) = (11, 11, 19).
+Proof.
+  cbv zeta. split; [apply genesis_ok_by_entries; [lia|vm_compute; reflexivity]|]. split; [vm_compute; reflexivity|].
+  split; [repeat constructor; discriminate|]. split; [repeat (apply Forall_cons; [simpl; tauto|]); apply Forall_nil|].
+  split; [repeat (apply Forall_cons; [split; vm_compute; reflexivity|]); apply Forall_nil|].
+  split; [vm_compute; reflexivity|]. split; vm_compute; reflexivity.
+Qed.
 
 (** The duration AdjustPool computes (availableHeight) is never negative (imported by the queues group). *)
 Theorem adjust_duration_is_nonnegative :
